@@ -17,6 +17,11 @@ func (m *FixPeriodPlanner) Process(ctx *shared.PlannerContext,
 	in chan []shared.LogEntry) (chan []shared.LogEntry, error) {
 	_from := ctx.From.UnixNano()
 	_to := ctx.To.UnixNano()
+	// one float64 per step and series is allocated below, in a goroutine nothing can recover (Sub saturates, it does not wrap)
+	if ctx.Step <= 0 || ctx.To.Before(ctx.From) || ctx.To.Sub(ctx.From)/ctx.Step > 11000 {
+		return nil, &shared.NotSupportedError{Msg: "exceeded maximum resolution of 11,000 points per timeseries. " +
+			"Try increasing the value of the step parameter"}
+	}
 	// whole range windows as the SQL counts them (multiples of the range since the Unix epoch;
 	// Time.Truncate counts from year 1 and is off for ranges that do not divide that offset, e.g. 7s)
 	d := m.Duration.Nanoseconds()
